@@ -2,6 +2,7 @@ import DracoModel.Proto
 import DracoModel.SeqDecoder
 import DracoModel.Spec
 import Ops.Codec
+import DracoModel.Animation
 /- op handlers of the end-to-end properties that work on a given stream (C10 on legacy / hand-made streams) -/
 namespace Draco.Ops
 open Draco Draco.Proto
@@ -29,7 +30,24 @@ def skipchkOp (args : List String) : String :=
     s!"{mdec} | {mall} | {msub} | n/a | {chk [0, 1, 2, 3, 4] sT} | {chk (skipOf skipS) uT}"
   | _ => "bad-op"
 
+/-- animapi <call> …  (see harness/ops_anim.cc): the KeyframeAnimation API calls run on `Anim.empty` -/
+def animapiOp (args : List String) : String :=
+  let calls : List (Option AnimCall) := args.map fun c =>
+    match c.splitOn ":" with
+    | ["T", ts] => some (.setTimestamps (natList ts))
+    | ["K", dt, nc, data] => some (.addKeyframes (natOf dt) (natOf nc) (natList data))
+    | _ => none
+  if calls.any (·.isNone) then "bad-op" else
+  let (A, rets) := Anim.empty.run (calls.filterMap id)
+  let rt := rets.map fun r => match r with
+    | .bool b => if b then "1" else "0"
+    | .id i => toString i
+  let atts := A.atts.map fun a =>
+    let d := if a.data.isEmpty then "-" else ".".intercalate (a.data.map toString)
+    s!" {a.uniqueId}:{a.attType}:{a.dataType}:{a.numComponents}:{a.size}:{d}"
+  s!"{if rt.isEmpty then "-" else ",".intercalate rt} | {A.numFrames} {A.atts.length} |{String.join atts}"
+
 def e2ePropsOps : List (String × (List String → String)) :=
-  [("skipchk", skipchkOp)]
+  [("skipchk", skipchkOp), ("animapi", animapiOp)]
 
 end Draco.Ops
